@@ -59,6 +59,8 @@ type vECfg struct {
 	batcher    bool
 	bmin, bmax int
 	retry      bool
+	block      bool // sending_queue.block_on_overflow
+	badMarshal int  // item count of the requests the Encoding refuses to marshal (-1: none)
 	telMode    int // tracer provider mode (vC19NewTel); tracing = spans record
 }
 
@@ -85,7 +87,7 @@ func vb(b bool) int64 {
 
 func (c vECfg) term() string {
 	v := []int64{int64(c.sig), vb(c.queue), vb(c.storage), vb(c.itemsSizer), int64(c.capacity), vb(c.wfr), vb(c.qbatch),
-		int64(c.qmin), int64(c.qmax), vb(c.batcher), int64(c.bmin), int64(c.bmax), vb(c.retry), vb(c.telMode == 0)}
+		int64(c.qmin), int64(c.qmax), vb(c.batcher), int64(c.bmin), int64(c.bmax), vb(c.retry), vb(c.telMode == 0), vb(c.block), int64(c.badMarshal)}
 	it := make([]string, len(v))
 	for i, x := range v {
 		it[i] = vZ(x)
@@ -93,9 +95,12 @@ func (c vECfg) term() string {
 	return vList(it)
 }
 
-type vC19Enc struct{}
+type vC19Enc struct{ bad int }
 
-func (vC19Enc) Marshal(r request.Request) ([]byte, error) {
+func (e vC19Enc) Marshal(r request.Request) ([]byte, error) {
+	if r.ItemsCount() == e.bad {
+		return nil, errors.New("payload cannot be marshalled")
+	}
 	return []byte(strconv.Itoa(r.ItemsCount())), nil
 }
 
@@ -217,6 +222,8 @@ type vExpObs struct {
 	offered   int64
 	refused   int64 // items of Sends the queue refused (full / too large)
 	wfrFailed int64 // items of wait-for-result Sends that returned the export's error
+	sends     []int64 // what each Send through a queue returned (0 nil, 1 full, 2 too large, 3 context error); not with wait_for_result
+	gaveUp    int64 // items of producers that gave up while blocked on a full queue
 	p         *vPusher
 	executed  int    // number of ops executed (the history is cut when an export hangs until shutdown)
 	problem   string // oracle problem detected while running (gauge mismatch, no quiescence, ...)
@@ -234,7 +241,7 @@ func vC19RunExp(_ *testing.T, cfg vECfg, outs []vEOut, ops []vEOp) vExpObs {
 		request.SizerTypeRequests: request.RequestsSizer[request.Request]{},
 		request.SizerTypeItems:    request.NewItemsSizer(),
 	}
-	options := []Option{WithQueueBatchSettings(QueueBatchSettings[request.Request]{Encoding: vC19Enc{}, Sizers: sizers})}
+	options := []Option{WithQueueBatchSettings(QueueBatchSettings[request.Request]{Encoding: vC19Enc{bad: cfg.badMarshal}, Sizers: sizers})}
 	if cfg.retry {
 		rc := configretry.NewDefaultBackOffConfig()
 		rc.InitialInterval = 15 * time.Millisecond
@@ -254,6 +261,7 @@ func vC19RunExp(_ *testing.T, cfg vECfg, outs []vEOut, ops []vEOp) vExpObs {
 		qc.NumConsumers = 1
 		qc.QueueSize = int64(cfg.capacity)
 		qc.WaitForResult = cfg.wfr
+		qc.BlockOnOverflow = cfg.block
 		if cfg.itemsSizer {
 			qc.Sizer = request.SizerTypeItems
 		}
@@ -347,17 +355,51 @@ func vC19RunExp(_ *testing.T, cfg vECfg, outs []vEOut, ops []vEOp) vExpObs {
 			}
 		}
 	}
+	nsends := 0
 	send := func(n int) {
 		obs.offered += int64(n)
 		nsent++
-		err := be.Send(context.Background(), &requesttest.FakeRequest{Items: n})
+		ctx := context.Background()
+		if qb != nil && cfg.block && !cfg.effWFR() {
+			// a producer blocked on a full queue gives up when its context ends: alternately a deadline and a cancel
+			var cancel context.CancelFunc
+			if nsends%2 == 0 {
+				ctx, cancel = context.WithTimeout(ctx, 25*time.Millisecond)
+			} else {
+				ctx, cancel = context.WithCancel(ctx)
+				tm := time.AfterFunc(25*time.Millisecond, cancel)
+				defer tm.Stop()
+			}
+			defer cancel()
+		}
+		nsends++
+		err := be.Send(ctx, &requesttest.FakeRequest{Items: n})
+		note := func(k int64) {
+			if qb != nil && !cfg.effWFR() {
+				obs.sends = append(obs.sends, k)
+			}
+		}
 		switch {
 		case err == nil:
 			accepted += int64(n)
+			note(0)
 		case qb == nil:
 			accepted += int64(n) // synchronous export: the pusher saw it
-		case errors.Is(err, queuebatch.ErrQueueIsFull) || err.Error() == "element size too large":
+		case errors.Is(err, queuebatch.ErrQueueIsFull):
 			obs.refused += int64(n)
+			note(1)
+		case err.Error() == "element size too large":
+			obs.refused += int64(n)
+			note(2)
+		case err.Error() == "payload cannot be marshalled":
+			// persistent queue: the Encoding refused the request: not enqueued
+			obs.refused += int64(n)
+			note(4)
+		case !cfg.effWFR() && (errors.Is(err, context.DeadlineExceeded) || errors.Is(err, context.Canceled)):
+			// the producer gave up while waiting for room: refused, never enqueued
+			obs.refused += int64(n)
+			obs.gaveUp += int64(n)
+			note(3)
 		case cfg.effWFR():
 			accepted += int64(n)
 			obs.wfrFailed += int64(n)
@@ -456,6 +498,7 @@ func vC19RunExp(_ *testing.T, cfg vECfg, outs []vEOut, ops []vEOp) vExpObs {
 func vC19GenExp(rng *vRand) (cfg vECfg, outs []vEOut, ops []vEOp, class string) {
 	cfg.sig = rng.Intn(3)
 	cfg.telMode = vC19TelMode(rng)
+	cfg.badMarshal = -1
 	cfg.retry = rng.Intn(3) != 0
 	small := func() int { return 1 + rng.Intn(12) }
 	allowBurst, allowHang, allowFlush := false, false, false
@@ -503,6 +546,12 @@ func vC19GenExp(rng *vRand) (cfg vECfg, outs []vEOut, ops []vEOp, class string) 
 		class = "persistent"
 		cfg.queue, cfg.storage = true, true
 		cfg.capacity = 1 + rng.Intn(5)
+		if rng.Intn(4) == 0 {
+			// items sizer on a persistent queue: rejected by config.Validate but accepted by the Go API;
+			// the only way a request can be larger than the capacity there
+			cfg.itemsSizer = true
+			cfg.capacity = 8 + rng.Intn(30)
+		}
 		allowBurst = true
 		allowHang = rng.Intn(3) == 0
 	default:
@@ -531,6 +580,12 @@ func vC19GenExp(rng *vRand) (cfg vECfg, outs []vEOut, ops []vEOp, class string) 
 		} else {
 			cfg.bmin, cfg.bmax = mn, mx
 		}
+	}
+	if cfg.queue && class != "wait-for-result" && rng.Intn(3) == 0 {
+		cfg.block = true // block_on_overflow: a Send without room waits and gives up with its context
+	}
+	if cfg.storage && rng.Intn(3) == 0 {
+		cfg.badMarshal = 1 + rng.Intn(6) // the Encoding refuses requests of this many items
 	}
 	nops := 2 + rng.Intn(7)
 	hangAt := -1
@@ -564,6 +619,9 @@ func vC19GenExp(rng *vRand) (cfg vECfg, outs []vEOut, ops []vEOp, class string) 
 			if rng.Intn(10) == 0 {
 				n = 40 + rng.Intn(80)
 			}
+			if cfg.badMarshal > 0 && rng.Intn(3) == 0 {
+				n = cfg.badMarshal
+			}
 			if rng.Intn(25) == 0 && !cfg.storage {
 				// (persistent queue: quiescence is detected by item tallies, an empty request is invisible to them)
 				n = 0
@@ -577,6 +635,9 @@ func vC19GenExp(rng *vRand) (cfg vECfg, outs []vEOut, ops []vEOp, class string) 
 				ns[j] = small()
 				if rng.Intn(12) == 0 {
 					ns[j] = 20 + rng.Intn(60)
+				}
+				if cfg.badMarshal > 0 && rng.Intn(4) == 0 {
+					ns[j] = cfg.badMarshal
 				}
 			}
 			ops = append(ops, vEOp{1, ns})
@@ -641,7 +702,13 @@ func vC19ExpTerm(cfg vECfg, outs []vEOut, ops []vEOp, o vExpObs) string {
 	}
 	capG := o.capGauge
 	return fmt.Sprintf("CExp %s %s %s %s %s %s", cfg.term(), vList(os), vList(ps), vC19Vec(o.tel.vec), vList(gs),
-		vList([]string{vZ(capG), vZ(o.stored)}))
+		vList(append([]string{vZ(capG), vZ(o.stored)}, func() []string {
+			r := make([]string, len(o.sends))
+			for i, k := range o.sends {
+				r[i] = vZ(k)
+			}
+			return r
+		}()...)))
 }
 
 func vC19ExpOracle(out *vOut, cfg vECfg, term string, o vExpObs) {
@@ -671,8 +738,8 @@ func vC19ExpOracle(out *vOut, cfg vECfg, term string, o vExpObs) {
 		}
 	}
 	p := o.p
-	desc := fmt.Sprintf("tracer_mode=%d sent=%d send_failed=%d enqueue_failed=%d offered=%d stored=%d | truth: ok=%d failed=%d refused=%d shutdown_interrupted=%d wfr_failed=%d storage=%v wfr=%v",
-		cfg.telMode, sent, failed, enq, o.offered, o.stored, p.okItems, p.errItems, o.refused, p.shutItems, o.wfrFailed, cfg.effStorage(), cfg.effWFR())
+	desc := fmt.Sprintf("tracer_mode=%d sent=%d send_failed=%d enqueue_failed=%d offered=%d stored=%d | truth: ok=%d failed=%d refused=%d (gave_up_blocked=%d) shutdown_interrupted=%d wfr_failed=%d storage=%v wfr=%v",
+		cfg.telMode, sent, failed, enq, o.offered, o.stored, p.okItems, p.errItems, o.refused, o.gaveUp, p.shutItems, o.wfrFailed, cfg.effStorage(), cfg.effWFR())
 	if o.problem != "" {
 		kind := "exporter-harness-problem"
 		if len(o.problem) > 5 && o.problem[:5] == "gauge" {
@@ -727,12 +794,32 @@ func TestVerifC19Exp(t *testing.T) {
 	}
 	// replay of the recorded witnesses (C19/Proofs4.v s2_refuted_l, wfr_refuted_l; probes/s2_probe_test.go)
 	jobs = append([]job{
-		{vECfg{sig: 2, queue: true, storage: true, capacity: 10, retry: true}, []vEOut{{4, 0}}, []vEOp{{0, []int{5}}}, "witness-S2"},
-		{vECfg{sig: 2, batcher: true, bmin: 100}, []vEOut{{2, 0}}, []vEOp{{0, []int{5}}}, "witness-WFR"},
+		{vECfg{sig: 2, queue: true, storage: true, capacity: 10, retry: true, badMarshal: -1}, []vEOut{{4, 0}}, []vEOp{{0, []int{5}}}, "witness-S2"},
+		{vECfg{sig: 2, batcher: true, bmin: 100, badMarshal: -1}, []vEOut{{2, 0}}, []vEOp{{0, []int{5}}}, "witness-WFR"},
 		// C19/Proofs8.v persistent_size_undercounts_l: 3 gated Sends on a persistent queue, the size gauge reads 2
-		{vECfg{sig: 2, queue: true, storage: true, capacity: 5, telMode: 1}, nil, []vEOp{{1, []int{1, 1, 1}}}, "witness-PQ-size"},
+		{vECfg{sig: 2, queue: true, storage: true, capacity: 5, telMode: 1, badMarshal: -1}, nil, []vEOp{{1, []int{1, 1, 1}}}, "witness-PQ-size"},
 	}, jobs...)
+	// histories that use the arguments of the translated toNumItems directly: a synchronous export of 1 / 2 / 5
+	// items that ends accepted, resp. with a permanent error
+	for _, n := range []int{1, 2, 5} {
+		jobs = append(jobs, job{vECfg{sig: n % 3, badMarshal: -1}, nil, []vEOp{{0, []int{n}}}, "arg-toNumItems"},
+			job{vECfg{sig: n % 3, telMode: 1, badMarshal: -1}, []vEOut{{2, 0}}, []vEOp{{0, []int{n}}}, "arg-toNumItems"})
+	}
 	ncases = len(jobs)
+	// BatchConfig.Validate on a grid of arguments: what it accepts must be what the exporter theorems assume
+	// (flush_timeout > 0, sizes >= 0, max_size = 0 or >= min_size)
+	for _, ft := range []time.Duration{0, time.Second} {
+		for mn := int64(-1); mn <= 3; mn++ {
+			for mx := int64(-1); mx <= 3; mx++ {
+				bc := &queuebatch.BatchConfig{FlushTimeout: ft, MinSize: mn, MaxSize: mx}
+				okWanted := ft > 0 && mn >= 0 && mx >= 0 && (mx == 0 || mn <= mx)
+				if (bc.Validate() == nil) != okWanted {
+					out.Oracle("batch-validate-differs", fmt.Sprintf("(%d, (%d, %d))%%Z", int64(ft/time.Second), mn, mx),
+						fmt.Sprintf("BatchConfig{FlushTimeout:%v MinSize:%d MaxSize:%d}.Validate() = %v, expected valid=%v", ft, mn, mx, bc.Validate(), okWanted))
+				}
+			}
+		}
+	}
 	res := make([]vExpObs, ncases)
 	// cases are independent (own telemetry, own exporter): run a few at a time
 	var wg sync.WaitGroup
@@ -766,6 +853,15 @@ func TestVerifC19Exp(t *testing.T) {
 		}
 		if o.refused > 0 {
 			out.Stat("cases_with_queue_refusal", 1)
+		}
+		if o.gaveUp > 0 {
+			out.Stat("cases_with_blocked_producer_giving_up", 1)
+		}
+		for _, k := range o.sends {
+			out.Stat(fmt.Sprintf("send_result%d_storage%v_block%v", k, j.cfg.effStorage(), j.cfg.block), 1)
+		}
+		if j.cfg.block {
+			out.Stat("cases_block_on_overflow", 1)
 		}
 		if o.stored > 0 {
 			out.Stat("cases_with_stored_left", 1)
